@@ -85,8 +85,11 @@ def _p(e, cx):
                 if "init" in st:
                     cur = _seq(cur, _p(st["init"], cx))
                 if "else" in st:
-                    # let-else: either falls through or takes the diverging else block
-                    cur = _seq(cur, EMPTY | _p(st["else"], cx))
+                    # let-else: either falls through or takes the diverging else block; a rule may label the refutable test
+                    # itself (classify is offered the Let statement) — the label is put on the else path
+                    lab = cx.classify(st)
+                    pre = EMPTY if lab is None else {((tuple(lab) if isinstance(lab, (list, tuple)) else (lab,)), "fall")}
+                    cur = _seq(cur, EMPTY | _seq(pre, _p(st["else"], cx)))
             else:
                 cur = _seq(cur, _p(st["e"], cx))
         if e.get("expr") is not None:
